@@ -14,6 +14,7 @@ import (
 	"time"
 
 	"github.com/restic/restic/internal/backend"
+	"github.com/restic/restic/internal/repository/crypto"
 	"github.com/restic/restic/internal/repository/index"
 	"github.com/restic/restic/internal/repository/pack"
 	"github.com/restic/restic/internal/restic"
@@ -54,6 +55,35 @@ func vMakeBlob(r *rand.Rand, class int) vBlob {
 		copy(buf, fmt.Sprintf("%d-%d", r.Int63(), r.Int63()))
 	}
 	return vBlob{id: restic.Hash(buf), tpe: tpe, data: buf}
+}
+
+// vMakeBlobCipherLen returns a blob of type tpe which SaveBlob turns into exactly clen bytes of pack content
+// (as saveAndEncrypt does it: zstd where the repository compresses, plus nonce and MAC).  ok = false if no
+// plaintext size gives that length.
+func vMakeBlobCipherLen(r *rand.Rand, repo *Repository, tpe restic.BlobType, clen int) (b vBlob, ok bool) {
+	compressed := repo.cfg.Version > 1 && (repo.opts.Compression != CompressionOff || tpe != restic.DataBlob)
+	n := clen - crypto.Extension
+	if n <= 0 {
+		return b, false
+	}
+	pool := make([]byte, n+8192)
+	_, _ = r.Read(pool)
+	if compressed {
+		ok = false
+		for iter := 0; iter < 10 && n > 0 && n <= len(pool); iter++ {
+			c := len(repo.getZstdEncoder().EncodeAll(pool[:n], nil))
+			if c+crypto.Extension == clen {
+				ok = true
+				break
+			}
+			n += clen - crypto.Extension - c
+		}
+		if !ok {
+			return b, false
+		}
+	}
+	buf := pool[:n:n]
+	return vBlob{id: restic.Hash(buf), tpe: tpe, data: buf}, true
 }
 
 type vSession struct {
@@ -171,6 +201,20 @@ func (s *vSession) runPhases(t testing.TB, name string, phases [][][]vBlob) (acc
 		s.opsSeen = s.store.NumOps()
 		s.once.Write(map[string]any{"scenario": s.seed, "session": name, "old": append([]string{}, s.oldToks...), "stored": stored, "accepted": toks, "fresh": fresh})
 		s.oldToks = append(s.oldToks, stored...)
+		// Go-side confirmation of SessionComplete: every accepted blob is listed by the header of an uploaded pack
+		have := map[string]bool{}
+		for _, x := range s.oldToks {
+			have[x] = true
+		}
+		lost := 0
+		for id := range accepted {
+			if !have[s.proj.Tok("b", id.String())] {
+				lost++
+			}
+		}
+		if lost > 0 {
+			s.res.Violate("upload/accepted-blob-in-no-pack", fmt.Sprintf("scenario %d session %s: SaveBlob accepted %d blob(s) that no pack uploaded up to the end of the session contains", s.seed, name, lost), map[string]any{"scenario": s.seed, "session": name})
+		}
 	}
 	return accepted, err
 }
@@ -184,13 +228,14 @@ func (s *vSession) trace() []kit.Ev {
 }
 
 func vRunC44(t *testing.T, forC16 bool) {
-	rule := "one case = one upload session (1..16 concurrent savers, blob size classes tiny/medium/large/at-least-pack-size, data and tree blobs, overlapping lists, blobs handed in again while they wait in an open packer and other packs of the session are uploaded, optional lowered index-full threshold and delayed index uploads) through the real SaveBlob -> packer -> uploader -> index code; judged by RepoTrace.tla SessionComplete, NoDuplicateUpload, PackNotOverfilled, PackUnmixed and the write-ordering rules; distinct by (scenario seed, session)"
+	rule := "one case = one upload session (1..16 concurrent savers, blob size classes tiny/medium/large/at-least-pack-size, data and tree blobs, overlapping lists, blobs handed in again while they wait in an open packer and other packs of the session are uploaded, blobs whose stored length is within [-48, +8] bytes of the pack size, optional lowered index-full threshold and delayed index uploads) through the real SaveBlob -> packer -> uploader -> index code; judged by RepoTrace.tla SessionComplete, NoDuplicateUpload, PackNotOverfilled, PackUnmixed and the write-ordering rules; distinct by (scenario seed, session)"
 	res := kit.NewResult(rule)
 	tr := kit.NewNDJSON("trace.ndjson")
 	defer tr.Close()
 	once := kit.NewNDJSON("recs_once.ndjson")
 	defer once.Close()
 	nscen := kit.Pick(6, 60)
+	nearSeen := map[int]bool{} // stored blob lengths relative to the pack size, within [-48, 8]
 	for si := 0; si < nscen; si++ {
 		seed := kit.Seed()*100000 + 4400 + int64(si)
 		if forC16 {
@@ -327,6 +372,54 @@ func vRunC44(t *testing.T, forC16 bool) {
 			res.Count("openpack_sessions", 1)
 			pool = append(pool, smalls...)
 		}
+		// session "boundary": blobs whose pack content length lies in [pack size - 48, pack size + 8] - around the
+		// point where a blob stops sharing a packer and gets a pack of its own, and where a packer counts as full;
+		// a dense sample per scenario (the scenarios of one run together cover every length), alone and mixed with
+		// small blobs, first from one goroutine, then from concurrent ones
+		if ok && !forC16 {
+			ps := int(repo.PackSize())
+			var near []vBlob
+			for d := -48; d <= 8; d++ {
+				if (d+48)%6 != si%6 && d != -1 && d != 0 {
+					continue
+				}
+				tpe := restic.DataBlob
+				if r.Intn(4) == 0 {
+					tpe = restic.TreeBlob
+				}
+				if b, found := vMakeBlobCipherLen(r, repo, tpe, ps+d); found {
+					near = append(near, b)
+				} else {
+					res.Count("boundary_lengths_not_constructible", 1)
+				}
+			}
+			r.Shuffle(len(near), func(i, j int) { near[i], near[j] = near[j], near[i] })
+			small := func() vBlob { return vMakeBlob(r, []int{0, 4, 1}[r.Intn(3)]) }
+			half := len(near) / 2
+			var seq []vBlob
+			for i, b := range near[:half] {
+				if i%2 == 1 {
+					seq = append(seq, small())
+				}
+				seq = append(seq, b)
+			}
+			conc := make([][]vBlob, 2+r.Intn(2))
+			for i, b := range near[half:] {
+				g := i % len(conc)
+				if r.Intn(2) == 0 {
+					conc[g] = append(conc[g], small())
+				}
+				conc[g] = append(conc[g], b)
+			}
+			if _, err := s.runPhases(t, "boundary", [][][]vBlob{{seq}, conc}); err != nil {
+				res.Problem("scenario %d: session boundary failed: %v", seed, err)
+				ok = false
+			}
+			res.Count("boundary_blobs", len(near))
+			if len(near) >= 2 {
+				pool = append(pool, near[0], near[len(near)-1])
+			}
+		}
 		// session 4: a fresh process (index loaded from the repository) saves known blobs only
 		if ok {
 			repo2, err := New(store.Backend("p1"), Options{PackSize: MinPackSize})
@@ -372,13 +465,23 @@ func vRunC44(t *testing.T, forC16 bool) {
 		// header limit (cheap to check on every pack)
 		for _, op := range store.Ops() {
 			if op.Kind == "Save" && op.OK && op.H.Type == backend.PackFile {
-				if bl, _, err := pack.List(repo.Key(), bytesReaderAt(op.Data), int64(len(op.Data))); err == nil && uint(len(bl)) > pack.MaxHeaderEntries {
+				bl, _, err := pack.List(repo.Key(), bytesReaderAt(op.Data), int64(len(op.Data)))
+				if err == nil && uint(len(bl)) > pack.MaxHeaderEntries {
 					res.Violate("upload/pack-header-limit-exceeded", fmt.Sprintf("scenario %d: pack with %d entries", seed, len(bl)), map[string]any{"scenario": seed})
+				}
+				for _, b := range bl {
+					if d := int(b.Length) - int(MinPackSize); d >= -48 && d <= 8 {
+						nearSeen[d] = true
+					}
 				}
 			}
 		}
 		res.Case(fmt.Sprintf("%d", seed), ok)
-		res.Count("sessions", 5)
+		nsess := 6
+		if forC16 {
+			nsess = 5
+		}
+		res.Count("sessions", nsess)
 		res.Count("packs_uploaded", len(store.Names(backend.PackFile)))
 		res.Sample(map[string]any{"scenario": seed, "version": version, "connections": store.Conns, "index_full_after": idxFull, "delayed_index_uploads": delayIdx, "goroutines_mixed": g, "pool": npool})
 		tr.Write(kit.Ev{"ev": "Reset", "proc": "env", "history": seed, "packsize": int(MinPackSize)})
@@ -386,6 +489,7 @@ func vRunC44(t *testing.T, forC16 bool) {
 			tr.Write(e)
 		}
 	}
+	res.Count("boundary_lengths_stored_distinct", len(nearSeen))
 	res.Save("")
 }
 
